@@ -33,8 +33,13 @@
 (*            RemoveStreamHandler: the muxer removes an entry with the same*)
 (*            name and APPENDS the new one; identify pushes the new name   *)
 (*            set to A when push reaches A.                                *)
-(*   Learn  = a fresh identify exchange (reconnect); Forget = A's          *)
-(*            peerstore loses what it knew about B's protocols.            *)
+(*   Learn  = a fresh identify exchange (reconnect) on one link; Forget =  *)
+(*            A's peerstore loses what it knew about B's protocols.        *)
+(*   Wait   = virtual time passes between operations; Finish has the       *)
+(*            handler answer a half-close after a delay (both swept across *)
+(*            DefaultNegotiationTimeout and beyond).                       *)
+(* Hosts and Links are constants: two hosts on one connection, or a dialer *)
+(* with TWO listeners whose books it keeps apart (K[x][y]).                *)
 (***************************************************************************)
 EXTENDS Naturals, Sequences, FiniteSets, TLC
 
@@ -42,27 +47,32 @@ CONSTANTS P,        \* protocol ids
           Ext,      \* set of <<n, p>>: id p is a proper extension of name n (/v/a -> /v/a/1)
           Entries,  \* handler entries that may be registered: [n : P, k : {"exact","prefix","sub"}]
           Reqs,     \* the request lists a dialer uses: sequences of distinct ids
-          Slots,    \* stream slots 1..N (concurrently open streams, either direction)
+          Slots,    \* stream slots 1..N (concurrently open streams, any direction)
           MaxTbl,   \* bound on the length of a handler table
           Tokens,   \* ids the application's first bytes may spell as a well-formed multistream token
           Lazy,     \* TRUE: BasicHost (peerstore knowledge -> lazy select); FALSE: BlankHost (always negotiates)
-          Push,     \* TRUE: identify push reaches the other host after every change of a host's name set
+          Push,     \* TRUE: identify push reaches the linked hosts after every change of a host's name set
+          Hosts,    \* host names
+          Links,    \* connections: set of two-element sets of hosts
           Dialers,  \* hosts that open streams
-          Servers   \* hosts that register / remove handlers
+          Servers,  \* hosts that register / remove handlers
+          Delays,   \* after how long the handler answers a half-close: subset of {"0", "tm", "tp", "min"}
+          Waits     \* pauses between operations: subset of {"tm", "tp", "min"}  (tm/tp: just below/above the
+                    \* negotiation timeout of 10 s, min: one minute)
 
-Hosts == {"A", "B"}
-Other(x) == IF x = "A" THEN "B" ELSE "A"
+Linked(x, y) == {x, y} \in Links
+Peers(x) == {y \in Hosts : Linked(x, y)}
 
 VARIABLES tbl,      \* [Hosts -> Seq(Entries)]: handler table, names distinct, in the muxer's order
-          K,        \* [Hosts -> SUBSET P]: K[x] = ids x's peerstore lists for Other(x)
-          st,       \* [Slots -> [ph, d, p, h]]  ph in idle | lazy | est ; d: dialer; p: the id d bound; h: entry serving it
+          K,        \* [Hosts -> [Hosts -> SUBSET P]]: K[x][y] = ids x's peerstore lists for y
+          st,       \* [Slots -> [ph, d, l, p, h]]  ph in idle | lazy | est ; d: dialer; l: listener; p: the id d bound; h: entry serving it
           op        \* output only: last call, its arguments and the expected observable results
 
 vars == <<tbl, K, st, op>>
 View == <<tbl, K, st>>
 
 NoH == [n |-> "", k |-> ""]
-Idle == [ph |-> "idle", d |-> "", p |-> "", h |-> NoH]
+Idle == [ph |-> "idle", d |-> "", l |-> "", p |-> "", h |-> NoH]
 
 Range(q) == {q[i] : i \in 1..Len(q)}
 Names(t) == {t[i].n : i \in 1..Len(t)}
@@ -80,7 +90,7 @@ ListenerNegotiate(t, p) ==
   THEN CHOOSE i \in 1..Len(t) : Accepts(t[i], p) /\ \A j \in 1..(i - 1) : ~Accepts(t[j], p)
   ELSE 0
 
-\* BasicHost.preferredProtocol: first REQUESTED id that the dialer's peerstore lists for the listener (0 = none)
+\* BasicHost.preferredProtocol: first REQUESTED id that the dialer's peerstore lists for THIS listener (0 = none)
 ChooseOptimistic(k, req) ==
   IF Lazy /\ \E i \in 1..Len(req) : req[i] \in k
   THEN CHOOSE i \in 1..Len(req) : req[i] \in k /\ \A j \in 1..(i - 1) : req[j] \notin k
@@ -96,8 +106,11 @@ NegotiateFull(t, req) ==
 \* what the statement calls "a protocol in common"
 Common(t, req) == {p \in Range(req) : \E e \in Range(t) : Accepts(e, p)}
 
-\* identify push: sent only when the SET of names changed; replaces the receiver's list
-PushK(t, t1, k) == IF Push /\ Names(t1) # Names(t) THEN Names(t1) ELSE k
+\* identify push: sent only when the SET of names changed; replaces the receiver's list about the sender
+PushK(x, t, t1) ==
+  IF Push /\ Names(t1) # Names(t)
+  THEN [y \in Hosts |-> IF Linked(x, y) THEN [K[y] EXCEPT ![x] = Names(t1)] ELSE K[y]]
+  ELSE K
 
 AnyLazy == \E s \in Slots : st[s].ph = "lazy"
 AnyEst == \E s \in Slots : st[s].ph = "est"
@@ -106,7 +119,7 @@ AllIdle == \A s \in Slots : st[s].ph = "idle"
 ChurnOK == AnyLazy \/ ~AnyEst
 
 Init == /\ tbl = [x \in Hosts |-> <<>>]
-        /\ K = [x \in Hosts |-> {}]
+        /\ K = [x \in Hosts |-> [y \in Hosts |-> {}]]
         /\ st = [s \in Slots |-> Idle]
         /\ op = [name |-> "init"]
 
@@ -117,7 +130,7 @@ Add(x, e) ==
   /\ Len(t1) <= MaxTbl
   /\ ~(\E i \in 1..Len(tbl[x]) : tbl[x][i] = e /\ i = Len(tbl[x]))      \* re-adding the last entry changes nothing
   /\ tbl' = [tbl EXCEPT ![x] = t1]
-  /\ K' = [K EXCEPT ![Other(x)] = PushK(tbl[x], t1, @)]
+  /\ K' = PushK(x, tbl[x], t1)
   /\ UNCHANGED st
   /\ op' = [name |-> "add", at |-> x, n |-> e.n, k |-> e.k]
 
@@ -127,42 +140,44 @@ Remove(x, n) ==
   /\ ChurnOK
   /\ n \in Names(tbl[x])
   /\ tbl' = [tbl EXCEPT ![x] = t1]
-  /\ K' = [K EXCEPT ![Other(x)] = PushK(tbl[x], t1, @)]
+  /\ K' = PushK(x, tbl[x], t1)
   /\ UNCHANGED st
   /\ op' = [name |-> "remove", at |-> x, n |-> n]
 
-Forget(x) ==
-  /\ Lazy /\ AllIdle /\ x \in Dialers /\ K[x] # {}
-  /\ K' = [K EXCEPT ![x] = {}]
+Forget(x, y) ==
+  /\ Lazy /\ AllIdle /\ x \in Dialers /\ Linked(x, y) /\ K[x][y] # {}
+  /\ K' = [K EXCEPT ![x][y] = {}]
   /\ UNCHANGED <<tbl, st>>
-  /\ op' = [name |-> "forget", at |-> x]
+  /\ op' = [name |-> "forget", at |-> x, of |-> y]
 
-\* reconnect: identify runs in both directions
-Learn ==
-  /\ Lazy /\ AllIdle /\ \E x \in Hosts : K[x] # Names(tbl[Other(x)])
-  /\ K' = [x \in Hosts |-> Names(tbl[Other(x)])]
+\* reconnect of one link: identify runs in both directions on it - and must not touch what either host
+\* knows about anybody else
+Learn(x, y) ==
+  /\ Lazy /\ AllIdle /\ Linked(x, y) /\ x \in Dialers
+  /\ K[x][y] # Names(tbl[y]) \/ K[y][x] # Names(tbl[x])
+  /\ K' = [K EXCEPT ![x][y] = Names(tbl[y]), ![y][x] = Names(tbl[x])]
   /\ UNCHANGED <<tbl, st>>
-  /\ op' = [name |-> "learn"]
+  /\ op' = [name |-> "learn", x |-> x, y |-> y]
 
 LowestIdle(s) == st[s].ph = "idle" /\ \A r \in Slots : r < s => st[r].ph # "idle"
 
-Open(s, d, req) ==
-  /\ d \in Dialers
+Open(s, d, l, req) ==
+  /\ d \in Dialers /\ Linked(d, l)
   /\ LowestIdle(s)
-  /\ LET t == tbl[Other(d)]
-         o == ChooseOptimistic(K[d], req)
+  /\ LET t == tbl[l]
+         o == ChooseOptimistic(K[d][l], req)
          f == NegotiateFull(t, req) IN
      IF o # 0
-     THEN /\ st' = [st EXCEPT ![s] = [ph |-> "lazy", d |-> d, p |-> req[o], h |-> NoH]]
+     THEN /\ st' = [st EXCEPT ![s] = [ph |-> "lazy", d |-> d, l |-> l, p |-> req[o], h |-> NoH]]
           /\ K' = K
-          /\ op' = [name |-> "open", s |-> s, d |-> d, req |-> req, res |-> "lazy", p |-> req[o], h |-> NoH]
+          /\ op' = [name |-> "open", s |-> s, d |-> d, l |-> l, req |-> req, res |-> "lazy", p |-> req[o], h |-> NoH]
      ELSE IF f # 0
      THEN LET e == t[ListenerNegotiate(t, req[f])] IN
-          /\ st' = [st EXCEPT ![s] = [ph |-> "est", d |-> d, p |-> req[f], h |-> e]]
-          /\ K' = [K EXCEPT ![d] = @ \cup {req[f]}]    \* the DIALER's Peerstore().AddProtocols(listener, selected)
-          /\ op' = [name |-> "open", s |-> s, d |-> d, req |-> req, res |-> "est", p |-> req[f], h |-> e]
+          /\ st' = [st EXCEPT ![s] = [ph |-> "est", d |-> d, l |-> l, p |-> req[f], h |-> e]]
+          /\ K' = [K EXCEPT ![d][l] = @ \cup {req[f]}]    \* the DIALER's Peerstore().AddProtocols(listener, selected)
+          /\ op' = [name |-> "open", s |-> s, d |-> d, l |-> l, req |-> req, res |-> "est", p |-> req[f], h |-> e]
      ELSE /\ UNCHANGED <<st, K>>
-          /\ op' = [name |-> "open", s |-> s, d |-> d, req |-> req, res |-> "fail", p |-> "", h |-> NoH]
+          /\ op' = [name |-> "open", s |-> s, d |-> d, l |-> l, req |-> req, res |-> "fail", p |-> "", h |-> NoH]
   /\ UNCHANGED tbl
 
 \* q = "": opaque application bytes.  q in Tokens: the first bytes the dialer's application writes are
@@ -176,7 +191,7 @@ Open(s, d, req) ==
 Use(s, q, m) ==
   /\ st[s].ph \in {"lazy", "est"}
   /\ q # "" => m = "wr"
-  /\ LET t == tbl[Other(st[s].d)] IN
+  /\ LET t == tbl[st[s].l] IN
      /\ q # "" => (st[s].ph = "lazy" /\ ListenerNegotiate(t, st[s].p) = 0)
      /\ IF st[s].ph = "est"
         THEN /\ UNCHANGED st
@@ -184,7 +199,7 @@ Use(s, q, m) ==
                        q |-> "", stray |-> NoH]
         ELSE LET j == ListenerNegotiate(t, st[s].p) IN
              IF j # 0
-             THEN /\ st' = [st EXCEPT ![s] = [ph |-> "est", d |-> st[s].d, p |-> st[s].p, h |-> t[j]]]
+             THEN /\ st' = [st EXCEPT ![s] = [ph |-> "est", d |-> st[s].d, l |-> st[s].l, p |-> st[s].p, h |-> t[j]]]
                   /\ op' = [name |-> "use", s |-> s, m |-> m, first |-> TRUE, res |-> "ok", p |-> st[s].p, h |-> t[j],
                             q |-> "", stray |-> NoH]
              ELSE LET k == IF q = "" THEN 0 ELSE ListenerNegotiate(t, q) IN
@@ -197,16 +212,27 @@ Use(s, q, m) ==
 \* one line, then CloseWrite) and then reads: streamWrapper.CloseWrite flushes the lazy handshake before the
 \* FIN, so the listener negotiates, the handler runs, sees EOF after the lines written and its answer reaches
 \* the dialer's read; then the stream is closed.  On a refused optimistic id the read fails instead.
-Finish(s, m) ==
+\* dl: the handler answers after that delay (virtual time).  The application sets no deadline of its own
+\* shorter than the delay, so the answer has to arrive whenever it is written.  While time passes no OTHER
+\* stream may be waiting un-negotiated (the listener's own negotiation timeout would end it).
+Finish(s, m, dl) ==
   /\ st[s].ph \in {"lazy", "est"}
+  /\ dl # "0" => \A r \in Slots : r # s => st[r].ph # "lazy"
   /\ st' = [st EXCEPT ![s] = Idle]
   /\ IF st[s].ph = "est"
-     THEN op' = [name |-> "finish", s |-> s, m |-> m, first |-> FALSE, res |-> "ok", p |-> st[s].p, h |-> st[s].h]
-     ELSE LET t == tbl[Other(st[s].d)]
+     THEN op' = [name |-> "finish", s |-> s, m |-> m, dl |-> dl, first |-> FALSE, res |-> "ok", p |-> st[s].p, h |-> st[s].h]
+     ELSE LET t == tbl[st[s].l]
               j == ListenerNegotiate(t, st[s].p) IN
-          op' = [name |-> "finish", s |-> s, m |-> m, first |-> TRUE, res |-> IF j # 0 THEN "ok" ELSE "fail",
+          op' = [name |-> "finish", s |-> s, m |-> m, dl |-> dl, first |-> TRUE, res |-> IF j # 0 THEN "ok" ELSE "fail",
                  p |-> st[s].p, h |-> IF j # 0 THEN t[j] ELSE NoH]
   /\ UNCHANGED <<tbl, K>>
+
+\* Wait: time passes while streams are established (after a negotiated open, after a first write); nothing
+\* may change: established streams have no library deadline
+Wait(w) ==
+  /\ AnyEst /\ ~AnyLazy
+  /\ UNCHANGED <<tbl, K, st>>
+  /\ op' = [name |-> "wait", w |-> w]
 
 \* Reset as the first (or a later) operation: nothing of a lazy handshake is ever sent, no handler starts
 Reset(s) ==
@@ -220,7 +246,7 @@ Close(s) ==
   /\ st' = [st EXCEPT ![s] = Idle]
   /\ IF st[s].ph = "est"
      THEN op' = [name |-> "close", s |-> s, unused |-> FALSE, p |-> st[s].p, h |-> NoH]
-     ELSE LET t == tbl[Other(st[s].d)]
+     ELSE LET t == tbl[st[s].l]
               j == ListenerNegotiate(t, st[s].p) IN     \* Close flushes the lazy handshake
           op' = [name |-> "close", s |-> s, unused |-> TRUE, p |-> st[s].p,
                  h |-> IF j # 0 THEN t[j] ELSE NoH]
@@ -228,20 +254,21 @@ Close(s) ==
 
 Next == \/ \E x \in Hosts, e \in Entries : Add(x, e)
         \/ \E x \in Hosts, n \in P : Remove(x, n)
-        \/ \E x \in Hosts : Forget(x)
-        \/ Learn
-        \/ \E s \in Slots, d \in Hosts, req \in Reqs : Open(s, d, req)
+        \/ \E x, y \in Hosts : Forget(x, y)
+        \/ \E x, y \in Hosts : Learn(x, y)
+        \/ \E s \in Slots, d, l \in Hosts, req \in Reqs : Open(s, d, l, req)
         \/ \E s \in Slots, q \in Tokens \cup {""}, m \in {"wr", "rd"} : Use(s, q, m)
-        \/ \E s \in Slots, m \in {"cw", "wcw"} : Finish(s, m)
+        \/ \E s \in Slots, m \in {"cw", "wcw"}, dl \in Delays : Finish(s, m, dl)
+        \/ \E w \in Waits : Wait(w)
         \/ \E s \in Slots : Reset(s)
         \/ \E s \in Slots : Close(s)
 
 Spec == Init /\ [][Next]_vars
 
 ----------------------------------------------------------------------------
-(* Observable consequences the replay compares (resource scopes of the two managers) *)
+(* Observable consequences the replay compares (resource scopes of the managers) *)
 Out(x, p) == Cardinality({s \in Slots : st[s].ph \in {"lazy", "est"} /\ st[s].d = x /\ st[s].p = p})
-In(x, p) == Cardinality({s \in Slots : st[s].ph = "est" /\ st[s].d = Other(x) /\ st[s].p = p})
+In(x, p) == Cardinality({s \in Slots : st[s].ph = "est" /\ st[s].l = x /\ st[s].p = p})
 
 ----------------------------------------------------------------------------
 (* Properties *)
@@ -249,11 +276,11 @@ In(x, p) == Cardinality({s \in Slots : st[s].ph = "est" /\ st[s].d = Other(x) /\
 TypeOK == /\ \A x \in Hosts : /\ \A i \in 1..Len(tbl[x]) : tbl[x][i] \in Entries
                               /\ \A i, j \in 1..Len(tbl[x]) : i # j => tbl[x][i].n # tbl[x][j].n
                               /\ Len(tbl[x]) <= MaxTbl
-                              /\ K[x] \subseteq P
+                              /\ \A y \in Hosts : K[x][y] \subseteq P /\ (~Linked(x, y) => K[x][y] = {})
           /\ \A s \in Slots : st[s].ph \in {"idle", "lazy", "est"}
 
 \* the listener's table of the stream in slot s
-LT(s) == tbl[Other(st[s].d)]
+LT(s) == tbl[st[s].l]
 
 \* RightHandler, state part: an established stream is served by an entry whose matcher accepts the id
 \* both ends report
@@ -262,47 +289,58 @@ RightHandler == \A s \in Slots : st[s].ph = "est" => Accepts(st[s].h, st[s].p)
 \* Agreement + "one of the requested": the id a successful open binds is requested; the id the
 \* handler's stream reports (op'.p at establishment) is the one the dialer bound at open
 OpenBinds == [][op'.name = "open" /\ op'.res # "fail" => op'.p \in Range(op'.req)]_vars
-Agreement == [][\A s \in Slots : (st[s].ph = "lazy" /\ st'[s].ph = "est") => st'[s].p = st[s].p /\ st'[s].d = st[s].d]_vars
+Agreement == [][\A s \in Slots : (st[s].ph = "lazy" /\ st'[s].ph = "est") =>
+                   st'[s].p = st[s].p /\ st'[s].d = st[s].d /\ st'[s].l = st[s].l]_vars
 
 \* RightHandler, action part: the entry that starts serving is registered at that moment AT THE LISTENER
 \* and is the first acceptor in table order (the muxer's rule, L2 in the replay); one handler per stream
 Dispatch == [][\A s \in Slots : (st[s].ph # "est" /\ st'[s].ph = "est") =>
-                   /\ st'[s].h \in Range(tbl[Other(st'[s].d)])
-                   /\ st'[s].h = tbl[Other(st'[s].d)][ListenerNegotiate(tbl[Other(st'[s].d)], st'[s].p)]]_vars
+                   /\ st'[s].h \in Range(tbl[st'[s].l])
+                   /\ st'[s].h = tbl[st'[s].l][ListenerNegotiate(tbl[st'[s].l], st'[s].p)]]_vars
 OneHandler == [][\A s \in Slots : st[s].ph = "est" /\ st'[s].ph = "est" => st'[s].h = st[s].h]_vars
 
 \* NoCommon: an open with no protocol in common fails at open, or - chosen optimistically - stays
 \* unestablished; a first use / flushing close of an id nobody accepts runs no handler
 NoCommon ==
-  [][/\ (op'.name = "open" /\ Common(tbl[Other(op'.d)], op'.req) = {}) => op'.res \in {"fail", "lazy"} /\ op'.h = NoH
+  [][/\ (op'.name = "open" /\ Common(tbl[op'.l], op'.req) = {}) => op'.res \in {"fail", "lazy"} /\ op'.h = NoH
      /\ (op'.name \in {"use", "close", "finish"} /\ st[op'.s].ph = "lazy"
            /\ ~\E e \in Range(LT(op'.s)) : Accepts(e, st[op'.s].p)) => op'.h = NoH /\ st'[op'.s].ph = "idle"
      /\ (op'.name \in {"open", "use", "finish"} /\ op'.res = "fail") => op'.h = NoH
      /\ (op'.name = "reset" /\ st[op'.s].ph = "lazy") => st'[op'.s].ph = "idle"]_vars
 
 \* FirstOpFree: whatever the dialer's first operation on an opened stream is (write+read, read, half-close
-\* with or without bytes, close), an id the listener accepts at that moment reaches its handler, and the
-\* exchange succeeds; only Reset never starts one
+\* with or without bytes, close) and however late the handler answers, an id the listener accepts at that
+\* moment reaches its handler, and the exchange succeeds; only Reset never starts one
 FirstOpFree ==
   [][(op'.name \in {"use", "finish", "close"} /\ st[op'.s].ph = "lazy"
         /\ \E e \in Range(LT(op'.s)) : Accepts(e, st[op'.s].p)) =>
           /\ op'.h # NoH /\ Accepts(op'.h, st[op'.s].p)
           /\ op'.name # "close" => op'.res = "ok"]_vars
+\* TimeFree: time alone changes nothing, and an established stream delivers whenever the handler answers
+TimeFree == [][/\ op'.name = "wait" => UNCHANGED <<tbl, K, st>>
+               /\ (op'.name = "finish" /\ st[op'.s].ph = "est") => op'.res = "ok"]_vars
 
 \* CommonMeansSuccess: with a protocol in common a negotiated open succeeds bound to an id the listener
 \* accepts; it can only be missed through an optimistic choice, and that choice comes from the dialer's
-\* book, whose entries have legitimate sources only (KnowledgeSources): the listener advertised the id
-\* (identify, push) or accepted it as LISTENER of a stream this host dialled.  Streams the other host
-\* opens towards this host never add to this host's book about it.
+\* book ABOUT THAT LISTENER, whose entries have legitimate sources only (KnowledgeSources): the listener
+\* advertised the id (identify, push) or accepted it as LISTENER of a stream this host dialled.  Streams the
+\* other host opens towards this host, and anything concerning a THIRD host, never add to it.
 CommonMeansSuccess ==
-  [][(op'.name = "open" /\ Common(tbl[Other(op'.d)], op'.req) # {}) =>
+  [][(op'.name = "open" /\ Common(tbl[op'.l], op'.req) # {}) =>
         /\ op'.res # "fail"
-        /\ op'.res = "est" => op'.p \in Common(tbl[Other(op'.d)], op'.req)
-        /\ op'.res = "lazy" => op'.p \in K[op'.d]]_vars
+        /\ op'.res = "est" => op'.p \in Common(tbl[op'.l], op'.req)
+        /\ op'.res = "lazy" => op'.p \in K[op'.d][op'.l]]_vars
 KnowledgeSources ==
-  [][\A x \in Hosts : \A p \in K'[x] \ K[x] :
-        \/ p \in Names(tbl'[Other(x)])
-        \/ (op'.name = "open" /\ op'.d = x /\ op'.res = "est" /\ op'.p = p)]_vars
+  [][\A x, y \in Hosts : \A p \in K'[x][y] \ K[x][y] :
+        \/ p \in Names(tbl'[y])
+        \/ (op'.name = "open" /\ op'.d = x /\ op'.l = y /\ op'.res = "est" /\ op'.p = p)]_vars
+\* a step that concerns the link x-y leaves every other book alone
+BooksApart ==
+  [][\A x, y \in Hosts : K'[x][y] # K[x][y] =>
+        \/ (op'.name \in {"add", "remove"} /\ op'.at = y)
+        \/ (op'.name = "forget" /\ op'.at = x /\ op'.of = y)
+        \/ (op'.name = "learn" /\ {op'.x, op'.y} = {x, y})
+        \/ (op'.name = "open" /\ op'.d = x /\ op'.l = y)]_vars
 
 \* KNOWN FINDING (payload-parsed-as-proposal): "no application handler runs" fails for a refused
 \* optimistic choice whose application bytes read as a proposal.  NoStray is therefore EXPECTED TO BE
@@ -313,14 +351,9 @@ NoStray == [][op'.name = "use" => op'.stray = NoH]_vars
 \* RemovedNeverRuns (model level): whatever serves or is invoked is in the listener's table of that moment
 RemovedNeverRuns ==
   [][(op'.name \in {"open", "use", "close", "finish"} /\ op'.h # NoH /\ ~(op'.name \in {"use", "finish"} /\ ~op'.first))
-        => op'.h \in Range(tbl[Other(IF op'.name = "open" THEN op'.d ELSE st[op'.s].d)])]_vars
+        => op'.h \in Range(tbl[IF op'.name = "open" THEN op'.l ELSE st[op'.s].l])]_vars
 
 \* vacuity guards (expected to be violated)
 ReachStaleFail == ~(op.name = "use" /\ op.res = "fail")
-ReachLaterWins == ~(op.name = "open" /\ op.res = "lazy" /\ Len(op.req) > 1 /\ op.p # op.req[1]
-                     /\ \E e \in Range(tbl[Other(op.d)]) : Accepts(e, op.req[1]))
-ReachOverlap == ~(\E s \in Slots : st[s].ph = "est" /\
-                     Cardinality({e \in Range(LT(s)) : Accepts(e, st[s].p)}) > 1)
-\* both directions established at once (bidirectional instances)
 ReachBothWays == ~(\E s, r \in Slots : st[s].ph = "est" /\ st[r].ph = "est" /\ st[s].d # st[r].d)
 =============================================================================
